@@ -120,7 +120,7 @@ func genC16One(t *rapid.T) c16Case {
 				for i := 0; i < n; i++ {
 					c.Faults = append(c.Faults, world.Fault{
 						Call:  rapid.IntRange(0, 3).Draw(t, "mixedcall"),
-						Kind:  rapid.SampledFrom([]string{"before", "overloaded", "drop-mid", "drop-mid-canceled"}).Draw(t, "mixedkind"),
+						Kind:  rapid.SampledFrom([]string{"before", "header", "overloaded", "drop-mid", "drop-mid-canceled"}).Draw(t, "mixedkind"),
 						After: rapid.IntRange(0, 2).Draw(t, "mixedafter"),
 					})
 				}
@@ -133,7 +133,7 @@ transient:
 	for i := 0; i < n; i++ {
 		c.Faults = append(c.Faults, world.Fault{
 			Call:  rapid.IntRange(0, 6).Draw(t, "faultcall"),
-			Kind:  rapid.SampledFrom([]string{"before", "overloaded", "drop-mid", "drop-mid", "drop-mid-canceled", "drop-after-done", "drop-after-done"}).Draw(t, "faultkind"),
+			Kind:  rapid.SampledFrom([]string{"before", "header", "overloaded", "drop-mid", "drop-mid", "drop-mid-canceled", "drop-after-done", "drop-after-done"}).Draw(t, "faultkind"),
 			After: rapid.IntRange(0, 3).Draw(t, "faultafter"),
 		})
 	}
@@ -277,7 +277,7 @@ func firstLine(err error) string {
 
 func TestC16(t *testing.T) {
 	r := ev.Get("C16", "Faults")
-	r.Rule = "rapid, batches of 12 cases run concurrently (every retry sleeps >= 1 s in the real back-off): generated program + request with 2..4 back-filled segments on the real work.RemoteWorker over a fake gRPC client/stream pair in front of the exported Tier2Service.ProcessRange; one case in three (when there are 2..3 workers) the tier2 service admits fewer concurrent calls than there are workers and turns the others down for real; transient plan = 1..3 faults (n-th call; error before the call, 'service currently overloaded', stream dropped after j messages with the server context cancelled (reported as unavailable, or as canceled by the remote end), stream dropped after the job wrote its files): the request must complete and satisfy the C01 oracle; deterministic plan = a module of the graph panics at block k (one program in four has two stores in every stage, so that the failing module is executed concurrently with another one of its layer; one case in eight: a module reading only a mapper whose outputs an earlier request cached, so that the failing job does not read the chain) (half of the time with 1..2 transient faults on the first calls too): the request must end with an error mapped to invalid_argument, deliver only blocks < k equal to the sequential execution's, nothing after the error, and not retry for ever; non-trivial = a fault that hits after the job produced output, or k inside the back-filled part"
+	r.Rule = "rapid, batches of 12 cases run concurrently (every retry sleeps >= 1 s in the real back-off): generated program + request with 2..4 back-filled segments on the real work.RemoteWorker over a fake gRPC client/stream pair in front of the exported Tier2Service.ProcessRange; one case in three (when there are 2..3 workers) the tier2 service admits fewer concurrent calls than there are workers and turns the others down for real; transient plan = 1..3 faults (n-th call; error before the call, error while the stream is set up (no header, then the same error on the first receive), 'service currently overloaded', stream dropped after j messages with the server context cancelled (reported as unavailable, or as canceled by the remote end), stream dropped after the job wrote its files): the request must complete and satisfy the C01 oracle; deterministic plan = a module of the graph panics at block k (one program in four has two stores in every stage, so that the failing module is executed concurrently with another one of its layer; one case in eight: a module reading only a mapper whose outputs an earlier request cached, so that the failing job does not read the chain) (half of the time with 1..2 transient faults on the first calls too): the request must end with an error mapped to invalid_argument, deliver only blocks < k equal to the sequential execution's, nothing after the error, and not retry for ever; non-trivial = a fault that hits after the job produced output, or k inside the back-filled part"
 	rapid.Check(t, func(rt *rapid.T) {
 		var batch c16Batch
 		n := 12
